@@ -952,7 +952,7 @@ if __name__ == '__main__':
 
 
 # ---------------------------------------------------------------- reflective READ capability of natives (C19 item "hidden reads")
-ACCESSORS = ('GetFieldByName', 'GetField', 'GetOwnField', 'NavigateField', 'Serialize', 'GetFieldInfo')
+ACCESSORS = ('GetFieldByName', 'GetField', 'GetOwnField', 'NavigateField', 'Serialize')
 _SKIP_NAMES = set(ACCESSORS) | {'if', 'for', 'while', 'switch', 'return', 'sizeof', 'catch', 'BOOST_THROW_EXCEPTION', 'ObjectLock',
                                 'REQUIRE_NOT_NULL', 'static_cast', 'dynamic_pointer_cast', 'static_pointer_cast', 'dynamic_cast',
                                 'ASSERT', 'VERIFY', 'String', 'Value', 'Array', 'Dictionary', 'Log', 'push_back', 'insert', 'size',
@@ -986,7 +986,7 @@ def all_function_bodies(texts):
     return out
 
 
-def reflect_reach(name, params, body, bodies, depth=3):
+def reflect_reach(name, params, body, bodies, depth=1):
     """reflective accessor calls reachable from this body through name-resolved callees -> sorted list of (where, accessor, how)"""
     found, seen = set(), set()
 
